@@ -177,8 +177,6 @@ class Ctx(object):
         if c is False:
             raise Abort("assumption false")
         self.pc.append(e)
-        if self.replaying():
-            return
         if self.model is not None and mval(self.model, e) is not True:
             self.model = None
 
@@ -218,6 +216,8 @@ class Ctx(object):
                 # the merged model must satisfy everything (slicing argument); cheap sanity check on the literal
             else:
                 self.pc.append(lit)
+                if self.model is not None and mval(self.model, lit) is not True:
+                    self.model = None  # a model obtained mid-replay (by an obligation) went stale
             return d
         m = self.ensure_model()
         d = mval(m, cond)
@@ -271,13 +271,44 @@ def fresh_name(base):
     return "%s!%d" % (base, c.fresh)
 
 
+WITNESSED = set()
+
+
 def witness(name, cond=True):
     """vacuity guard: record that `name` is reachable when pc ∧ cond is satisfiable"""
     c = ctx()
-    if name in c.witnessed:
+    if name in WITNESSED:
         return
     if c.check_sat([cond]) is not None:
         c.witnessed.add(name)
+        WITNESSED.add(name)
+
+
+def oblige_all(pairs, inputs=None):
+    """several obligations at once: one query for the conjunction, individual queries only
+    when that query is satisfiable (so a run without counterexamples costs one query)"""
+    c = ctx()
+    pairs = [(n, e) for n, e in pairs]
+    sym = [(n, e) for n, e in pairs if z._cb(e) is None]
+    ok = True
+    for n, e in pairs:
+        if z._cb(e) is True:
+            STATS.obligations += 1
+            STATS.discharged += 1
+            STATS.trivially_true += 1
+        elif z._cb(e) is False:
+            ok = oblige(n, False, inputs) and ok
+    if not sym:
+        return ok
+    m = c.check_sat([z.Or([z.Not(e) for _, e in sym])] + list(c.known_exclusions))
+    if m is None:
+        STATS.obligations += len(sym)
+        STATS.discharged += len(sym)
+        c.obligations.append({"name": "%s (+%d more)" % (sym[0][0], len(sym) - 1), "status": "discharged"})
+        return ok
+    for n, e in sym:
+        ok = oblige(n, e, inputs) and ok
+    return ok
 
 
 def oblige(name, expr, inputs=None, info=None):
@@ -319,6 +350,7 @@ def explore(fn, max_paths=100000, deadline=None, on_path=None):
     pending = [([], None)]
     records = []
     witnessed = set()
+    WITNESSED.clear()
     while pending:
         if STATS.paths >= max_paths:
             raise Inconclusive("path bound %d reached with %d prefixes pending" % (max_paths, len(pending)))
